@@ -493,7 +493,12 @@ func signCells(r *core.Run) {
 				desc := fmt.Sprintf("Sign(%s, %s: declares %s, key and serialised leaf %s)", mtName(mt), variant, pair[1], pair[0])
 				var signer signature.Signer
 				if variant == "inconsistent-certificate-object" {
-					fake := *big.Certs[0]
+					// the bigger key certified by the SAME CA as the small leaf
+					bigLeaf, ierr := pki.Issue(pki.LeafSpec(big.Keys[0], "c02"+pair[1]+"-under-the-other-ca"), small.Certs[1], small.Keys[1])
+					if ierr != nil {
+						panic(ierr)
+					}
+					fake := *bigLeaf
 					fake.Raw = small.Certs[0].Raw
 					signer = &sims.RemoteSigner{Key: small.Keys[0], Spec: sims.KeySpecOf(pair[1]), Chain: append([]*x509.Certificate{&fake}, small.Certs[1:]...)}
 				} else {
